@@ -12,7 +12,9 @@
 //!                  unmodelled scanner; ImplVsModel), before and after `recognize`;
 //!   (b) build      `build(draw t)` = `t` field by field (ImplVsSpec: recognised exactly as
 //!                  drawn) and = `recognizePlane (planeOf t)` (ImplVsModel);
-//!   (c) evaluate   the recognised table evaluates like the same table loaded from DMN XML;
+//!   (c) evaluate   the recognised table evaluates like the same table loaded from DMN XML (the evaluated tables have
+//!                  output component names, input expressions, output labels and information item names of several
+//!                  words drawn in one line, with a run of blanks, or over several lines);
 //!   (d) total      single-character corruptions, line-level corruptions and arbitrary text are
 //!                  recognised or rejected with an error, never a panic (ImplVsSpec, signature =
 //!                  panic site); when the scanner still yields a plane, the implementation's
@@ -254,6 +256,20 @@ fn wrap_at_comma(rng: &mut Rng, s: String, multi: bool) -> String {
   format!("{}\n{}", &s[..=i], rest)
 }
 
+/// A name of several words as it may be drawn in a cell: in one line, with a run of blanks between two words,
+/// broken after the first word, or one word per line.
+fn draw_name(rng: &mut Rng, name: &str) -> String {
+  if !name.contains(' ') {
+    return name.to_string();
+  }
+  match rng.below(5) {
+    0 => name.to_string(),
+    1 => name.replacen(' ', "  ", 1),
+    2 | 3 => name.replacen(' ', "\n", 1),
+    _ => name.replace(' ', "\n"),
+  }
+}
+
 const STRS: [&str; 4] = ["a", "b", "c", "d"];
 
 fn num_entry(rng: &mut Rng) -> String {
@@ -309,14 +325,15 @@ fn gen_table(rng: &mut Rng, sh: &Shape, semantic: bool, multi: bool) -> Tbl {
     let nm = match rng.below(14) {
       0 => format!("Applicant age {}", j + 1),
       1 => format!("Order size{}", j + 1),
+      4 | 5 if semantic && multi => format!("Monthly net income {}", j + 1),
       2 if j > 0 => ["A", "P", "C"][j % 3].to_string() + &format!("{}", j),
       // an input called like a hit policy marker (regression of F19a when it is the first one of a rules-as-columns table)
       3 if sh.quirks => ["A", "P", "C", "U", "F", "R", "O"][(j + sh.r) % 7].to_string(),
       _ => format!("in{}", j + 1),
     };
     let expr = if semantic {
-      if multi && nm.contains(' ') && rng.chance(1, 2) {
-        nm.replacen(' ', "\n", 1)
+      if multi && nm.contains(' ') {
+        draw_name(rng, &nm)
       } else {
         nm.clone()
       }
@@ -343,7 +360,23 @@ fn gen_table(rng: &mut Rng, sh: &Shape, semantic: bool, multi: bool) -> Tbl {
   let mut outputs = vec![];
   for j in 0..sh.m {
     let name = if sh.m > 1 {
-      Some(if semantic { format!("out{}", j + 1) } else { free_text(rng, multi) })
+      Some(if semantic {
+        // component names of one or of several words; the ones of several words are drawn in one line, with a run
+        // of blanks between two words, or over two or more lines (the name is the same name however it is drawn)
+        let base = match rng.below(5) {
+          0 | 1 => format!("out{}", j + 1),
+          2 => format!("Discount rate {}", j + 1),
+          3 => format!("out put{}", j + 1),
+          _ => format!("Risk level é {}", j + 1),
+        };
+        if multi {
+          draw_name(rng, &base)
+        } else {
+          base
+        }
+      } else {
+        free_text(rng, multi)
+      })
     } else {
       None
     };
@@ -364,7 +397,13 @@ fn gen_table(rng: &mut Rng, sh: &Shape, semantic: bool, multi: bool) -> Tbl {
   }
   let label = if sh.m == 1 || sh.label {
     // a label that reads as a number (regression of F19b in a rules-as-columns table)
-    Some(if sh.quirks && rng.chance(1, 4) { format!("{}", 1 + rng.below(3)) } else { free_text(rng, multi) })
+    Some(if sh.quirks && rng.chance(1, 4) {
+      format!("{}", 1 + rng.below(3))
+    } else if semantic && multi && rng.chance(1, 2) {
+      draw_name(rng, "Discount and risk")
+    } else {
+      free_text(rng, multi)
+    })
   } else {
     None
   };
@@ -406,7 +445,11 @@ fn gen_table(rng: &mut Rng, sh: &Shape, semantic: bool, multi: bool) -> Tbl {
   Tbl {
     orient: sh.orient,
     hp: sh.hp,
-    name: if sh.name { Some(free_text(rng, multi)) } else { None },
+    name: if sh.name {
+      Some(if semantic && multi && rng.chance(1, 2) { draw_name(rng, "Discount and risk level") } else { free_text(rng, multi) })
+    } else {
+      None
+    },
     inputs,
     outputs,
     label,
@@ -887,6 +930,15 @@ fn canon(v: &Value) -> String {
     Value::List(vs) => format!("[{}]", vs.as_vec().iter().map(canon).collect::<Vec<_>>().join(", ")),
     Value::Context(c) => format!("{{{}}}", c.get_entries().iter().map(|(k, v)| format!("{}: {}", k, canon(v))).collect::<Vec<_>>().join(", ")),
     other => format!("{}", other),
+  }
+}
+
+/// The names of the entries of all contexts in a value, in order.
+fn entry_names(v: &Value) -> Vec<String> {
+  match v {
+    Value::List(vs) => vs.as_vec().iter().flat_map(entry_names).collect(),
+    Value::Context(c) => c.get_entries().iter().flat_map(|(k, v)| std::iter::once(k.to_string()).chain(entry_names(v))).collect(),
+    _ => vec![],
   }
 }
 
@@ -1529,22 +1581,36 @@ fn evaluate_family(rep: &mut Report, rng: &mut Rng, t: &Tbl, dt: &DecisionTable,
     let ctx_text = input_context(rng, t);
     let r = guarded(|| {
       let ctx: FeelContext = dmntk_feel_evaluator::evaluate_context(&Scope::default(), &ctx_text).map_err(|e| e.to_string())?;
-      let from_xml = canon(&me.evaluate_invocable("D", &ctx));
+      let vx = me.evaluate_invocable("D", &ctx);
+      let from_xml = canon(&vx);
       let scope: Scope = ctx.into();
+      let mut same_names = true;
       let from_drawing = match dmntk_model_evaluator::build_decision_table_evaluator(&scope, dt) {
-        Ok(ev) => canon(&ev(&scope)),
+        Ok(ev) => {
+          let vd = ev(&scope);
+          same_names = entry_names(&vd) == entry_names(&vx);
+          canon(&vd)
+        }
         Err(e) => format!("build error: {}", stable_msg(&e.to_string())),
       };
-      Ok::<(String, String), String>((from_xml, from_drawing))
+      Ok::<(String, String, bool), String>((from_xml, from_drawing, same_names))
     });
     match r {
-      Ok(Ok((x, d))) => {
+      Ok(Ok((x, d, same_names))) => {
         rep.evaluations += 1;
         rep.hit(if x == "null" { "evaluate:null" } else { "evaluate:value" });
+        if t.outputs.iter().any(|(n, _)| n.as_ref().map(|n| n.contains('\n') || n.contains("  ")).unwrap_or(false)) {
+          rep.hit(if x.starts_with('{') || x.starts_with("[{") { "evaluate:component-name-drawn-over-lines:context-result" } else { "evaluate:component-name-drawn-over-lines:other-result" });
+        }
+        if t.inputs.iter().any(|(e, _)| e.contains('\n') || e.contains("  ")) {
+          rep.hit("evaluate:input-expression-drawn-over-lines");
+        }
         if x != d {
           let wrapped = t.inputs.iter().any(|(e, _)| e.contains('\n'));
           let sig = if d.starts_with("build error") {
             format!("recognised table does not build an evaluator{}", if wrapped { " (input expression wrapped over lines)" } else { "" })
+          } else if !same_names {
+            "recognised table evaluates to a context whose entry names differ from the component names of the XML table".to_string()
           } else if wrapped {
             "recognised table evaluates differently from the XML table (input expression wrapped over lines)".to_string()
           } else {
